@@ -113,6 +113,7 @@ def worker_explore(spec):
             break
         st = Streams(run_seed(seed, spec["prop"], i))
         case = check.generate(st, tier)
+        pristine = json.dumps(case)          # what is published is the case as generated, whatever an executor did to its copy
         faulthandler.dump_traceback_later(RUN_TIMEOUT, exit=True)
         try:
             res = check.execute(case)
@@ -139,7 +140,7 @@ def worker_explore(spec):
                 # address-dependent order pinned as a forced order)
                 rc = v.pop("replay_case", None)
                 # the interpreter's hash seed is part of the schedule: a replay runs under the same one
-                out["violations"].append({"index": i, "case": rc or case, "violation": v,
+                out["violations"].append({"index": i, "case": rc or json.loads(pristine), "violation": v,
                                           "hashseed": os.environ.get("PYTHONHASHSEED")})
     out["nontrivial"] = sorted(nontrivial)
     out["distinct"] = dict((k, sorted(v)) for k, v in distinct.items())
